@@ -79,6 +79,11 @@ func VerifSnapshot() {
 	in := new(vrtSnapIn)
 	in.height = heights[vrt.Choose("era", 2)]
 	pool := []fat2.PTicker{fat2.PTickerEUR, fat2.PTickerXBT, fat2.PTickerUSD} // ticker order EUR < XBT: a zero-rated asset before a priced one is reachable with 2 assets
+	if vrt.Param("edge", 0) == 1 {
+		// the first held asset is either an interior ticker or the last one of the enumeration
+		// (column lists and per-ticker loops end there)
+		pool[0] = []fat2.PTicker{fat2.PTickerEUR, fat2.PTickerMax - 1}[vrt.Choose("edgeasset", 2)]
+	}
 	in.assets = pool[:nAssets]
 	n := nBoth
 	if extras == 1 {
